@@ -221,6 +221,11 @@ def run(ctx):
     ok_r = False
     inl_rp = _sa(rp.node)
     b0 = find_stmt("$$w, $$x['logP'] = self.compute_weights($$x, return_log_prior=True)", rp.node)
+    if len(b0) != 1:
+        # the pair unpacked into locals first: `w, p = self.compute_weights(x, return_log_prior=True)` ; `x['logP'] = p`
+        b1 = find_stmt("$$w, $$p = self.compute_weights($$x, return_log_prior=True)", rp.node)
+        if len(b1) == 1 and len(find_stmt("$$x['logP'] = $$p", rp.node, b1[0][1])) == 1 and sum(1 for t_ in walk_no_nested(rp.node) if isinstance(t_, ast.Name) and t_.id == src(b1[0][1]["p"]) and isinstance(t_.ctx, ast.Store)) == 1:
+            b0 = b1
     if len(b0) == 1:
         bb = b0[0][1]
         n1 = find_stmt("$$w -= nanmax($$w)", rp.node, bb) or find_stmt("$$w -= max($$w)", rp.node, bb)
@@ -262,6 +267,17 @@ def run(ctx):
                 ok_u = len(us3) == len(acc3) and all(any(src(a_["u"]) == src(u_["u"]) for u_ in us3) for a_ in acc3)
             else:
                 acc3 = [b_ for n_, b_ in find_stmt("$$a = $$W - $$c > log(random.rand(len($$W)))", fp_.node, {"W": cc["W"]})]
+                # (one uniform per accumulated point is also `len(W - c)`: subtracting the scalar normaliser keeps the length)
+                acc3 += [b_ for n_, b_ in find_stmt("$$a = $$W - $$c > log(random.rand(len($$W - $$c)))", fp_.node, {"W": cc["W"]})]
+                if not acc3:
+                    # ... or through a local bound once to the normalised weights (what an inlined helper's parameter becomes)
+                    inl_fp = _sa(fp_.node)
+                    for n_, b_ in find_stmt("$$a = $v", fp_.node):
+                        for pt_ in ("$$W - $$c > log(random.rand(len($$W - $$c)))", "$$W - $$c > log(random.rand(len($$W)))"):
+                            m_ = match_expr(pt_, b_["v"], {"W": cc["W"]}, inline=inl_fp)
+                            if m_ is not None:
+                                acc3.append({**m_, "a": b_["a"]})
+                                break
                 ok_u = True
             fin = find_stmt("self.x = $$S[$$a][:N]", fp_.node, {"S": cc["S"]})
             ok3 = len(kc) == 1 and len(acc3) == 2 and ok_u and all(src(a_["c"]) == src(kc[0][1]["c"]) for a_ in acc3) and len(fin) == 1
@@ -415,7 +431,12 @@ def prior_store(prog, res, g, f, fa, bp):
     if len(direct) == 1:
         return True, "direct: samples['logP'] = model.batch_evaluate_log_prior(self.samples)"
     # through compute_weights(x, return_log_prior=True) -> x['logP'] ; self.samples = x[indices]
-    for n, b in find_stmt("$$w, $$x['logP'] = self.compute_weights($$x, return_log_prior=True)", f.node):
+    cwb_ = list(find_stmt("$$w, $$x['logP'] = self.compute_weights($$x, return_log_prior=True)", f.node))
+    for n1_, b1_ in find_stmt("$$w, $$p = self.compute_weights($$x, return_log_prior=True)", f.node):
+        # (the pair unpacked into locals first, the log-prior stored into the field next)
+        if len(find_stmt("$$x['logP'] = $$p", f.node, b1_)) == 1 and sum(1 for t_ in walk_no_nested(f.node) if isinstance(t_, ast.Name) and t_.id == src(b1_["p"]) and isinstance(t_.ctx, ast.Store)) == 1:
+            cwb_.append((n1_, b1_))
+    for n, b in cwb_:
         sel = find_stmt("self.samples = $$x[$i]", f.node, {"x": b["x"]})
         cw = prog.find_method(f.cls, "compute_weights")
         okcw = cw is not None and len(find_stmt("$$p = self.model.batch_evaluate_log_prior(x)", cw.node)) == 1 and any(match_stmt("return $$w, $$p", r) is not None for r in ast.walk(cw.node) if isinstance(r, ast.Return))
